@@ -8,6 +8,47 @@ _NOTE = ('trusted base: the simulator itself (SimLoop, SimKernel, fake ZeroMQ) '
 _TECH = 'deterministic simulation with fault injection'
 
 META = {
+    'C13': {
+        'level': 'exploration',
+        'text': 'seeded watcher configurations whose cmd/args come from a '
+                'token grammar (quotes, escapes, circus.wid / circus.env.X '
+                'references in both syntaxes and any case, unknown '
+                'references, literal dollars; string and list args; shell; '
+                'env with/without copy_env; working_dir), run through '
+                'histories of deaths, incr, decr, reload, restart; every '
+                'simulated process creation (argv, env, cwd, shell) is '
+                'compared with an independent reading of the documented '
+                'rules, worker ids are read back from argv',
+        'note': _NOTE + '; values that themselves contain circus reference '
+                'syntax and the deprecated $WID are not generated',
+        'technique': _TECH + ' (process-creation arguments captured by the '
+                     'simulated kernel vs a reference reader)'},
+    'C18': {
+        'level': 'exploration',
+        'text': 'seeded lives with forking workers (children, grandchildren) '
+                'and signal / kill requests whose pid, childpid, children, '
+                'recursive and signum fields are drawn from own, foreign, '
+                'dead and unknown pids and from every signal designation '
+                'class (all signal.Signals members in all spellings, '
+                'SIGRTMIN+n, near misses, non-signal module names); '
+                'confinement is judged inside the simulated kernel at '
+                'delivery time, the delivered (pid, signal) set per request '
+                'against a reference computed from the kernel table',
+        'note': _NOTE + '; workers that die from an injected fault during '
+                'the dispatch, and descendants then unreachable through '
+                'them, may legitimately be missed',
+        'technique': _TECH + ' (kernel signal log judged at delivery time)'},
+    'C19': {
+        'level': 'exploration',
+        'text': 'seeded sets of 2-5 watchers (priorities with ties and '
+                'negatives, numprocesses, per-watcher and global warmup '
+                'delays, autostart flags) started by the daemon start, start '
+                '(all), start/restart with globs, with worker deaths during '
+                'the sequence; the kernel spawn log with exact virtual '
+                'timestamps is checked for order, non-interleaving and '
+                'pacing',
+        'note': _NOTE, 'technique': _TECH + ' (spawn log with virtual '
+                'timestamps)'},
     'C14': {
         'level': 'fault_enumeration',
         'text': 'systematic enumeration of hook outcome assignments (all '
